@@ -14,6 +14,7 @@ import AquaDrv.C16Ops
 import AquaDrv.C10Ops
 import AquaDrv.C28Ops
 import AquaDrv.C14Ops
+import AquaDrv.C27Ops
 /-! Line-protocol driver of the model: one JSON request per line on stdin, one JSON answer per line. -/
 open Lean Aqua
 
@@ -41,6 +42,7 @@ def dispatch (j : Json) : Json :=
   | "beautify" => opBeautify j
   | "verify_data" => opVerifyData j
   | "salted_data" => opSaltedData j
+  | "c27" => opC27 j
   | "ping" => Json.mkObj [("pong", true)]
   | op => Json.mkObj [("error", s!"unknown op {op}")]
 
